@@ -205,29 +205,43 @@ func Sign(rnd io.Reader, dBytes, eBytes []byte) (r, s []byte, consumed int, reje
 // exactly 32 bytes; r,s in [1,n-1]; t != 0; public key canonical and on the curve;
 // [s]G+[t]P finite; (e+x1) mod n == r.
 func Verify(px, py, eBytes, rBytes, sBytes []byte) bool {
+	return VerifyReason(px, py, eBytes, rBytes, sBytes) == "ok"
+}
+
+// VerifyReason returns "ok" or the first side condition of B1-B7 that fails.
+func VerifyReason(px, py, eBytes, rBytes, sBytes []byte) string {
 	if len(px) != 32 || len(py) != 32 || len(eBytes) != 32 || len(rBytes) != 32 || len(sBytes) != 32 {
-		return false
+		return "length"
 	}
 	r, s := Int(rBytes), Int(sBytes)
-	if r.Sign() <= 0 || s.Sign() <= 0 || r.Cmp(SM2N) >= 0 || s.Cmp(SM2N) >= 0 {
-		return false
+	if r.Sign() <= 0 || r.Cmp(SM2N) >= 0 {
+		return "r-range"
+	}
+	if s.Sign() <= 0 || s.Cmp(SM2N) >= 0 {
+		return "s-range"
 	}
 	t := new(big.Int).Add(r, s)
 	t.Mod(t, SM2N)
 	if t.Sign() == 0 {
-		return false
+		return "t=0"
 	}
 	x, y := Int(px), Int(py)
+	if x.Cmp(SM2P) >= 0 || y.Cmp(SM2P) >= 0 {
+		return "pub-noncanonical"
+	}
 	if !OnCurve(x, y) {
-		return false
+		return "pub-offcurve"
 	}
 	pt := Add(MulG(s), Mul(t, Pt{X: x, Y: y}))
 	if pt.Inf {
-		return false
+		return "infinity"
 	}
 	R := new(big.Int).Add(Int(eBytes), pt.X)
 	R.Mod(R, SM2N)
-	return R.Cmp(r) == 0
+	if R.Cmp(r) != 0 {
+		return "mismatch"
+	}
+	return "ok"
 }
 
 // ZA = SM3(ENTL || ID || a || b || xG || yG || xA || yA); ok=false if the id is too
